@@ -20,7 +20,7 @@ class TlcError(Exception):
 def new_workdir(tag):
     d = os.path.join(WORK, '%s-%s' % (tag, uuid.uuid4().hex[:8]))
     os.makedirs(d)
-    for sub in ('base', 'obj', 'kern', 'mc'):
+    for sub in ('base', 'obj', 'kern', 'ext', 'mc'):
         sd = os.path.join(SPEC, sub)
         if not os.path.isdir(sd):
             continue
